@@ -371,6 +371,13 @@ func (rp *ReverseProxy) ServeHTTP(rw http.ResponseWriter, outreq *http.Request, 
 
 	isWebsocket := res.StatusCode == http.StatusSwitchingProtocols && strings.EqualFold(res.Header.Get("Upgrade"), "websocket")
 
+	if hj, ok := transport.(*connHijackerTransport); ok && !isWebsocket && hj.Conn != nil {
+		// The backend declined the upgrade. Nobody else owns the connection that
+		// was dialed for it: the transport only sees a hijackedConn, whose Close
+		// does nothing, so close it once the response has been relayed.
+		defer hj.Conn.Close()
+	}
+
 	// Remove hop-by-hop headers listed in the
 	// "Connection" header of the response.
 	for _, c := range res.Header["Connection"] {
